@@ -277,8 +277,12 @@ void StringDictionaryFMINDEX::build_ssa(uchar *text, size_t len,
   if (BWTsampling > 0) {
     uint samples = (len + 1) / BWTsampling + 1;
 
-    for (uint i = 0; i < samples; i++)
-      fm_index->suff_sample[i] = separators->rank1(fm_index->suff_sample[i]);
+    for (uint i = 0; i < samples; i++) {
+      // The sample of the final terminator is position len, one past the
+      // bitmap: every separator precedes it
+      size_t pos = fm_index->suff_sample[i];
+      fm_index->suff_sample[i] = separators->rank1(pos < len ? pos : len - 1);
+    }
   }
 }
 
